@@ -1471,7 +1471,9 @@ def c18(ctx):
                 'element of a Vec-indexed slice / per row cell of everything stored since the last clear (bound computed '
                 'from the reference list, for compositions without deduplication); (iv) clear: used bytes return to what '
                 'the model says a cleared region accounts (no payload), no reported capacity shrinks; (v) the used bytes '
-                'per callback, their number and order equal the Coq model\'s r_used exactly (every branch contributes)')
+                'per callback, their number and order equal the Coq model\'s r_used exactly (every branch contributes); plus a '
+                'deterministic large-allocation batch (one item of > 1 MiB and > 4 MiB in every kind of backing vector, then clear) '
+                'run on the implementation and clauses (i)-(iv) only: the list-based model is not run on million-element items')
     cases = []
     n = 30 if not ctx.thorough else 400
     sizes = {k: ([] if v == '-' else [int(x, 16) for x in v.split(',')]) for k, v in lib.column_sizes().items()}
@@ -1559,7 +1561,8 @@ def c17(ctx):
                 'heap_size must be unchanged and the allocator must not be called during the pushes; the capacities after '
                 'the reservation must cover what the Coq model says is needed (used + announced bytes per backing vector, '
                 'the premise of theorem presize_no_growth); (b) every catalogue entry: n = 2^6..2^k items pushed from empty, '
-                'allocator calls during pushes bounded by the sum over backing vectors of log2(capacity)+2')
+                'allocator calls during pushes bounded by the sum over backing vectors of log2(capacity)+2; histories longer than '
+                '2^10 pushes (thorough tier: up to 2^14) run on the implementation and this bound only, not on the model')
     cases = []
     n = 15 if not ctx.thorough else 300
     ref_form = lambda e: 1 if catalogue.ref_ok(e) else 0
